@@ -956,7 +956,7 @@ CONC_SCALED = ["burst", "ii2", "three2", "syncflag"]
 # C05 / C06 under interleavings: the programs with expiry, and two that need scaled queues
 CONC_EXP = ["ttl", "tti", "ttix", "farx"]
 CONC_EXP_SCALED = ["ttihk", "ttlhk"]
-FINE_PROGS = ["putback", "rej", "upd", "wgt", "farx"]
+FINE_PROGS = ["putback", "rej", "upd", "wgt", "farx", "deadrm", "ixi"]
 # "all" slices: the share of the programs whose schedules are emitted and replayed (1 / m), quick / thorough
 ALL_PICK = {"all_unit": (24, 8), "all_wgt": (60, 20), "all_exp": (60, 20)}
 
